@@ -1323,6 +1323,10 @@ class Interp:
                 raise Unsupported("arith on bool")
             if is_sym(a) or is_sym(b):
                 a, b = self.coerce(a, b)
+            if self.mode == "sym" and self.is_float_ty(ty) and not is_sym(a) and not is_sym(b):
+                fr_ = self._ieee(op[0], a, b)
+                if fr_ is not None:
+                    return fr_
             r = {"A": lambda: a + b, "S": lambda: a - b, "M": lambda: a * b}[op[0]]()
             if self.mode == "sym" and self.is_float_ty(ty) and isinstance(r, int) and not isinstance(r, bool):
                 r = Fraction(r)
@@ -1366,6 +1370,25 @@ class Interp:
             b = z3.ToReal(b)
         return a, b
 
+    @staticmethod
+    def _ieee(op, a, b):
+        """Concrete f64 arithmetic in symbolic mode is done in IEEE double precision (round to nearest even), exactly as the compiler's
+        constant evaluation and the hardware do: `11. / 30.` is the double 0.36666666666666664, not the rational 11/30. Only symbolic
+        operations use exact-real semantics. Applies when both operands are exactly representable doubles."""
+        try:
+            fa, fb = float(a), float(b)
+        except (OverflowError, TypeError):
+            return None
+        if Fraction(fa) != Fraction(a) or Fraction(fb) != Fraction(b):
+            return None
+        try:
+            r = {"A": lambda: fa + fb, "S": lambda: fa - fb, "M": lambda: fa * fb, "D": lambda: fa / fb}[op]()
+        except ZeroDivisionError:
+            return None
+        if not math.isfinite(r):
+            return None
+        return Fraction(r)
+
     def fdiv(self, st, a, b):
         if not is_sym(a) and not is_sym(b):
             if self.mode == "float":
@@ -1376,6 +1399,9 @@ class Interp:
                     return math.nan if fa == 0 or math.isnan(fa) else math.copysign(math.inf, fa) * math.copysign(1.0, float(b))
             if b == 0:
                 raise Unsupported("float division by constant zero")
+            fr_ = self._ieee("D", a, b)
+            if fr_ is not None:
+                return fr_
             return Fraction(a) / Fraction(b)
         if is_sym(b):
             # obligation: divisor != 0 on this path; quotient introduced as q with q*b == a (keeps the query polynomial)
